@@ -416,8 +416,9 @@ static void run_input(const char *caseid, int kind, int mut, int seedno,
     {
 	int leak = cf_leak_check();
 
-	vt_put("{\"e\":\"End\",\"live\":%ld,\"leak\":%d}",
-		vt_alloc_live - live0, leak);
+	vt_put("{\"e\":\"End\",\"live\":%ld,\"leak\":%d,\"probed\":%d,"
+		"\"window\":%d}", vt_alloc_live - live0, leak, cf_leak_probed,
+		cf_leak_period);
 	vt_end_line();
 	if (leak) {
 	    unlink(path_in);
